@@ -192,6 +192,7 @@ pub fn content_bytes(pt: Pt, n: usize, w: usize, content: Content, seed: u64) ->
             let r = rng.next_u64();
             let v16: u32 = match content {
                 Content::Random => (r & 0xffff) as u32,
+                Content::Tiny => (r & 0x3ff) as u32,
                 Content::Ramp => ((x * 7 + y * 13 + c * 29) & 0xffff) as u32 * 257 % 65536,
                 Content::Zeros => 0,
                 Content::Ones => 0xffff,
@@ -241,6 +242,7 @@ pub fn content_bytes(pt: Pt, n: usize, w: usize, content: Content, seed: u64) ->
                 2 => {
                     let v: i32 = match content {
                         Content::Random | Content::AlphaEdges | Content::Opaque | Content::SparseAlpha => (r >> 16) as i32,
+                        Content::Tiny => (v16 & 0xff) as i32,
                         Content::Zeros => 0,
                         Content::Ones => i32::MAX,
                         Content::Checker | Content::Blocks => {
@@ -268,6 +270,7 @@ pub fn content_bytes(pt: Pt, n: usize, w: usize, content: Content, seed: u64) ->
                                 f32::from_bits(1 + (v16 & 0x7fff))
                             }
                         }
+                        Content::Tiny => f32::from_bits(1 + ((r >> 20) as u32 & 0x3f_ffff)),
                         _ => v16 as f32 / 65535.0,
                     };
                     out.extend_from_slice(&f.to_ne_bytes());
